@@ -393,7 +393,7 @@ theorem evictLruLoop_sharp {p : Params} (fuel : Nat) :
     intro s wte c w hs
     unfold evictLruLoop
     by_cases hw : w ≥ wte
-    · left; simpa [hw] using hw
+    · left; simp [hw]
     · simp only [hw, if_false]
       cases hp : s.prob with
       | nil => right; left; exact map_nil_of_prob_nil hs hp
@@ -431,6 +431,96 @@ theorem evictLru_works_off {p : Params} {s : UState} (hi : InvU p s) {c : Nat}
     omega
   · left; rw [h]; simp [totalW]
   · right; omega
+
+end Unsync
+end MiniMoka
+
+namespace MiniMoka
+namespace Unsync
+
+theorem evictExpiredIfNeeded_spec {p : Params} (hq : NoQuirks p) {s : UState} (hi : InvU p s) :
+    InvU p (evictExpiredIfNeeded p s) ∧ Shrinks s (evictExpiredIfNeeded p s) := by
+  unfold evictExpiredIfNeeded
+  split
+  · obtain ⟨h1, h2, _⟩ := evictExpired_spec hq hi
+    exact ⟨h1, h2⟩
+  · exact ⟨hi, Shrinks.refl s⟩
+
+/-- C04, working off an excess: the maintenance that starts every `get`, `contains_key`,
+`insert` and `invalidate` leaves the cache within its capacity, or else has removed a full
+batch of entries.  (An empty map has `weighted_size = 0`, so "the map is empty" is covered by
+the first alternative.) -/
+theorem maintain_works_off {p : Params} (hq : NoQuirks p) {s : UState} (hi : InvU p s) {c : Nat}
+    (hcap : p.cap = some c) :
+    (maintain p s).ws ≤ c ∨ (maintain p s).map.length + EVICTION_BATCH_SIZE ≤ s.map.length := by
+  obtain ⟨h1, h2⟩ := evictExpiredIfNeeded_spec hq hi
+  have hlen := length_le_of_sub _ _ h1.struct.keysNodup h2.sub
+  unfold maintain
+  rcases evictLru_works_off h1 hcap with h | h
+  · exact Or.inl h
+  · right; omega
+
+/-- The cache is within its capacity after `j` lookups if it held at most `j` batches of
+entries (whatever its excess was): `⌈n / batch⌉` operations work any excess off. -/
+def isLookup : Op → Bool
+  | .get _ => true
+  | .has _ => true
+  | _ => false
+
+theorem lookups_work_off {P : Sketch → Prop} (L : SketchLaws P) {p : Params} (hq : NoQuirks p)
+    (hsm : SmallSketch p) {c : Nat} (hcap : p.cap = some c) :
+    ∀ (ops : List Op) (s : UState), Inv P p s → (∀ op ∈ ops, isLookup op = true) →
+      (runState p s ops).ws ≤ c ∨
+      (runState p s ops).map.length + ops.length * EVICTION_BATCH_SIZE ≤ s.map.length := by
+  intro ops
+  induction ops with
+  | nil => intro s _ _; right; simp [runState]
+  | cons op rest ih =>
+    intro s hi hall
+    have hi' := step_inv L hq hsm hi op
+    have hop := hall op List.mem_cons_self
+    -- one lookup: state = maintenance up to list order and the sketch
+    have hone : (step p s op).1.ws = (maintain p s).ws ∧ (step p s op).1.map = (maintain p s).map := by
+      rw [step_state L hq hsm hi op]
+      cases op with
+      | get k => exact ⟨get_ws p s k, get_map p s k⟩
+      | has k => dsimp only; rw [containsKey_state]; exact ⟨rfl, rfl⟩
+      | _ => simp [isLookup] at hop
+    have hw := maintain_works_off hq hi.inv hcap
+    rw [← hone.1, ← hone.2] at hw
+    simp only [runState, List.length_cons]
+    rcases ih _ hi' (fun o ho => hall o (List.mem_cons_of_mem _ ho)) with h | h
+    · exact Or.inl h
+    · rcases hw with hw | hw
+      · -- already within capacity: the remaining lookups keep it there
+        left
+        clear h
+        have keep : ∀ (ops : List Op) (t : UState), Inv P p t → (∀ o ∈ ops, isLookup o = true) →
+            t.ws ≤ c → (runState p t ops).ws ≤ c := by
+          intro ops
+          induction ops with
+          | nil => intro t _ _ h; exact h
+          | cons o r ih2 =>
+            intro t ht hl hle
+            refine ih2 _ (step_inv L hq hsm ht o) (fun o' ho' => hl o' (List.mem_cons_of_mem _ ho')) ?_
+            refine step_ws_le L hq hsm ht hcap o ?_ hle
+            have := hl o List.mem_cons_self
+            cases o <;> simp [isLookup] at this <;> simp [GrowingUpdate]
+        exact keep rest _ hi' (fun o ho => hall o (List.mem_cons_of_mem _ ho)) hw
+      · right
+        rw [Nat.add_mul]
+        omega
+
+theorem lookups_work_off' {P : Sketch → Prop} (L : SketchLaws P) {p : Params} (hq : NoQuirks p)
+    (hsm : SmallSketch p) {c : Nat} (hcap : p.cap = some c) (ops : List Op) (s : UState)
+    (hi : Inv P p s) (hall : ∀ op ∈ ops, isLookup op = true)
+    (hn : s.map.length ≤ ops.length * EVICTION_BATCH_SIZE) : (runState p s ops).ws ≤ c := by
+  rcases lookups_work_off L hq hsm hcap ops s hi hall with h | h
+  · exact h
+  · have hI := (runState_inv L hq hsm ops hi).inv
+    have : (runState p s ops).map.length = 0 := by omega
+    have hm : (runState p s ops).map = [] := List.eq_nil_of_length_eq_zero this
+    rw [hI.counted.ws, hm]; simp [totalW]
 
 end Unsync
 end MiniMoka
